@@ -2,6 +2,8 @@ import Larking.Gen.Skel
 import Larking.Gen.Missing
 import Larking.Expected.C04
 import Larking.Lemmas.Negotiate
+import Larking.Lemmas.FieldPath
+import Larking.Gen.Params
 /-
   C04 — Unary response fidelity and truthful response headers (negotiation part proved;
   the marshalling codecs are parameters, see the level note).
@@ -88,6 +90,44 @@ example : negotiateContentType
 example : ∃ o ∈ [[99, 47, 100], [97, 47, 98]], ∃ s ∈ parseAccept [[97, 47, 42]],   -- "a/*"
     0 < s.q.num ∧ rangeMatches s.value o = true := by decide
 
+/-! ### `response_body` / `body` selectors (`Model/FieldPath`: `fieldPath`, `mutablePath`) -/
+
+open Larking.FieldPath in
+/-- **a `response_body` selector yields exactly the selected field of the reply**: `addRule`
+resolves the selector with ALL its dot-separated components against the REPLY message's fields
+(both regenerated), and walking the reply along the resolved fields (`mutablePath`) arrives at
+the field the components name, one level per component — for every descriptor tree, every
+selector and every reply. -/
+theorem response_body_selects_the_named_field (fs : List Field) (sel : Bytes) (p : List Nat) (reply : Val)
+    (h : resolve Gen.respSelectorAll fs sel = some p) :
+    Gen.respSelectorOnReply = true ∧ p.length = (splitDots sel).length ∧
+    select fs reply (splitDots sel) = some (mutablePath reply p) := by
+  simp only [resolve, Gen.respSelectorAll, if_true] at h
+  exact ⟨by decide, fieldPath_length _ fs p h, mutablePath_select _ fs p reply h⟩
+
+open Larking.FieldPath in
+/-- the same for a `body` selector, against the REQUEST message's fields. -/
+theorem body_selects_the_named_field (fs : List Field) (sel : Bytes) (p : List Nat) (req : Val)
+    (h : resolve Gen.bodySelectorAll fs sel = some p) :
+    Gen.bodySelectorOnRequest = true ∧ p.length = (splitDots sel).length ∧
+    select fs req (splitDots sel) = some (mutablePath req p) := by
+  simp only [resolve, Gen.bodySelectorAll, if_true] at h
+  exact ⟨by decide, fieldPath_length _ fs p h, mutablePath_select _ fs p req h⟩
+
+open Larking.FieldPath in
+/-- not vacuous, and the contrast: `nested.child` resolves to the field of the field; resolved from
+its first component alone the rule would answer with the whole `nested` message. -/
+theorem first_component_only_selects_the_parent :
+    let child : Desc := .mk [([115], [115], 1, false, none)]
+    let nested : Desc := .mk [([99, 104], [99, 104], 3, false, some child)]
+    let fs : List Field := [([110], [110], 7, false, some nested)]
+    let sel : Bytes := [110, 46, 99, 104]                       -- "n.ch"
+    let leaf : Val := .msg [(1, .scalar [120])]
+    let reply : Val := .msg [(7, .msg [(3, leaf), (9, .scalar [121])])]
+    resolve true fs sel = some [7, 3] ∧ mutablePath reply [7, 3] = leaf ∧
+    resolve false fs sel = some [7] ∧ mutablePath reply [7] = .msg [(3, leaf), (9, .scalar [121])] := by
+  exact ⟨by rfl, by rfl, by rfl, by rfl⟩
+
 end Larking.Props.C04
 
 #print axioms Larking.Props.C04.translator_complete
@@ -95,3 +135,6 @@ end Larking.Props.C04
 #print axioms Larking.Props.C04.content_type_sound
 #print axioms Larking.Props.C04.content_type_complete
 #print axioms Larking.Props.C04.content_type_default
+#print axioms Larking.Props.C04.response_body_selects_the_named_field
+#print axioms Larking.Props.C04.body_selects_the_named_field
+#print axioms Larking.Props.C04.first_component_only_selects_the_parent
